@@ -138,7 +138,8 @@ def gen_doc(rng):
         val = rng.choice(["1", "[1, 2]", "{a: b}", '"text"', "2001-12-14", "!!set {a, b}", "!!binary aGVsbG8="])
         bad = None
     pos = rng.choice(["top", "pipeline-element", "eager-arg", "lazy-arg", "nested", "key", "eager-key", "lazy-key",
-                      "eager-seq", "lazy-seq", "pipeline-arg", "pipeline-key", "deep-lazy", "root", "root-flow", "section"])
+                      "eager-seq", "lazy-seq", "pipeline-arg", "pipeline-key", "deep-lazy", "root", "root-flow", "section",
+                      "second-document"])
     if pos == "top":
         text = "__config_test:\n  x: %s\npipeline: []\n" % val
     elif pos == "pipeline-element":
@@ -159,6 +160,11 @@ def gen_doc(rng):
             text = "%s {pipeline: [], __config_test: {x: 1}}\n" % tag
         else:
             text = "pipeline: []\n__config_test: %s\n  x: 1\n" % tag
+    elif pos == "second-document" and bad is not None:
+        # a valid configuration first; the tag comes after a document separator of the same file
+        sep = rng.choice(["---\n", "...\n---\n", "--- "])
+        tail = ("%s\n" % val) if sep == "--- " else ("__config_test:\n  x: %s\npipeline: []\n" % val)
+        text = "pipeline: []\n__config_test:\n  x: 1\n" + sep + tail
     elif pos == "eager-key":
         text = "__config_test:\n  y: !__yaml_tag_test\n    ? %s\n    : 1\npipeline: []\n" % val
     elif pos == "lazy-key":
@@ -248,8 +254,8 @@ def run(ctx):
             ctx.tally("pos:%s" % d["pos"])
             impl_err = r["load"].startswith("error") and r["yaml"].startswith("error")
             impl_ok = r["load"] == "ok" and r["yaml"] == "ok"
-            if i in comp_err:
-                continue  # not a well-formed YAML document at all
+            if i in comp_err and d["pos"] != "second-document":
+                continue  # not a well-formed YAML document at all (a file of several documents is judged below: it must be rejected)
             if d["bad"] and not impl_err:
                 ctx.violation("dangerous-document-accepted", "document using a %s tag at %s was not rejected: %r -> %r" % (d["bad"], d["pos"], d["text"], r), d)
             if r.get("unimported_loaded"):
